@@ -30,34 +30,41 @@ theorem fuel_enough (f : Nat) :
               · rename_i hc4; rw [if_pos hc4] at h; exact h
               · rename_i hc4; rw [if_neg hc4] at h
                 split
-                · rename_i hc5; rw [if_pos hc5] at h
-                  cases hh : pArrHead rest with
-                  | none => simp
-                  | some p =>
-                    obtain ⟨n, body⟩ := p
-                    simp only [hh] at h ⊢
-                    have hb := pArrHead_lt hh
-                    cases he : pEntries f n body with
-                    | none =>
-                      rw [ihE n body (by simp at hlen; omega) he]
-                    | some q =>
-                      obtain ⟨es, rest'⟩ := q
-                      simp only [he] at h
-                      rw [(monoE n body es rest' he).1]
-                      exact h
-                · rfl
+                · rename_i hc6; rw [if_pos hc6] at h; exact h
+                · rename_i hc6; rw [if_neg hc6] at h
+                  split
+                  · rename_i hc5; rw [if_pos hc5] at h
+                    cases hh : pArrHead rest with
+                    | none => simp
+                    | some p =>
+                      obtain ⟨n, body⟩ := p
+                      simp only [hh] at h ⊢
+                      have hb := pArrHead_lt hh
+                      cases he : pEntries f n body with
+                      | none =>
+                        rw [ihE n body (by simp at hlen; omega) he]
+                      | some q =>
+                        obtain ⟨es, rest'⟩ := q
+                        simp only [he] at h
+                        rw [(monoE n body es rest' he).1]
+                        exact h
+                  · rfl
     · intro n s hlen h
       cases n with
       | zero => simp [pEntries] at h
       | succ n =>
         rw [pEntries] at h ⊢
         cases h1 : pValue f s with
-        | none => rw [ihV s (by omega) h1]
+        | none => rw [ihV s (by omega) h1]; rfl
         | some p1 =>
           obtain ⟨k, s1⟩ := p1
           obtain ⟨a1, a2⟩ := monoV s k s1 h1
           simp only [h1] at h
-          rw [a1]; simp only
+          rw [a1]
+          cases hok : keyOk k with
+          | false => simp [keyFilter, hok]
+          | true =>
+          simp only [keyFilter, hok, if_true] at h ⊢
           cases h2 : pValue f s1 with
           | none => rw [ihV s1 (by omega) h2]
           | some p2 =>
